@@ -18,9 +18,24 @@ Fixpoint eval_inclusion (terms : list bytes) (i1 j1 : N) (c : bytes) : bytes :=
 
 Definition lenN {A} (l : list A) : N := N.of_nat (length l).
 
+(* ahtree.inclusionProofLen(i, j): number of terms of the inclusion proof of leaf i in the tree of
+   size j. The two Go loops (count the levels until i1 = j1, then count the set bits of what is left
+   of j1) are fused: once i1 = j1 the pair stays equal under the shifts. fuel = bit length of j1 + 2. *)
+Fixpoint incl_len_f (fuel : nat) (i1 j1 : N) : N :=
+  match fuel with
+  | O => 0
+  | S f =>
+      if i1 =? j1 then
+        if j1 =? 0 then 0
+        else (if N.odd j1 then 1 else 0) + incl_len_f f (N.div2 i1) (N.div2 j1)
+      else 1 + incl_len_f f (N.div2 i1) (N.div2 j1)
+  end.
+Definition fuel_for (j1 : N) : nat := S (S (N.to_nat (N.log2 j1))).
+Definition inclusion_proof_len (i j : N) : N := incl_len_f (fuel_for (j - 1)) (i - 1) (j - 1).
+
 Definition verify_inclusion (terms : list bytes) (i j : N) (ileaf jroot : bytes) : bool :=
   if (j <? i) || (i =? 0) || ((i <? j) && (lenN terms =? 0)) then false else
-  if negb (N.shiftr (i - 1) (lenN terms) =? N.shiftr (j - 1) (lenN terms)) then false else
+  if negb (lenN terms =? inclusion_proof_len i j) then false else
   bytes_eqb jroot (eval_inclusion terms (i - 1) (j - 1) ileaf).
 
 (* ---- ahtree.EvalLastInclusion / VerifyLastInclusion ---- *)
@@ -31,7 +46,8 @@ Fixpoint eval_last_inclusion (terms : list bytes) (c : bytes) : bytes :=
   end.
 
 Definition verify_last_inclusion (terms : list bytes) (i : N) (leaf root : bytes) : bool :=
-  if i =? 0 then false else bytes_eqb root (eval_last_inclusion terms leaf).
+  if (i =? 0) || negb (lenN terms =? inclusion_proof_len i i) then false
+  else bytes_eqb root (eval_last_inclusion terms leaf).
 
 (* ---- ahtree.EvalConsistency / VerifyConsistency ---- *)
 Fixpoint strip_odd (fuel : nat) (fn sn : N) : N * N :=
